@@ -199,6 +199,8 @@ def run(ctx: Context) -> None:
     from . import infra as _infra
     _infra.arakawa_names(ctx, 'R01.9')
     _infra.cf_grid_names(ctx, 'R01.9')
+    # grid_dimensions of a CF grid is [y_dimension, x_dimension]: both are read off the coordinate the grid order follows
+    _infra.cf_grid_dimensions(ctx, 'R01.2')
     ctx.assume("numpy.ravel_multi_index / unravel_index with equal shape, order='C', mode='raise' are mutually inverse on [0, prod(shape)) and raise outside it")
     ctx.assume("xarray Dataset.sizes reports the dimension lengths of the file")
 
